@@ -375,6 +375,45 @@ def rule_scan_targets(ctx, rep, rule_id="R-SCAN-TARGETS"):
                   f"the project directory becomes a semgrep target on a path where the list of selected files (`{files_p}`) is not known to be empty")
 
 
+def rule_alias_decides(ctx, rep):
+    rep.rule(
+        "R-ALIAS-DECIDES",
+        "in the name-resolution mixin a helper that is handed one alias of an import statement (`import_alias` / `alias` next to the import "
+        "node) lets that alias decide its answer on every path: an `import a, b` statement binds several names, so a result computed from the "
+        "statement alone (its first name) resolves `b.f()` to `a.f` -- the detector still reports the call, the transformer no longer "
+        "recognises it, and the reported location is neither rewritten nor failed",
+        min_instances=2,
+    )
+    mod = ctx.prog.module("codemodder.codemods.utils_mixin")
+    n = 0
+    for fn in [f for f in ctx.prog.live_functions() if f.module is mod]:
+        ps = [p_ for p_ in fn.positional_params() if "alias" in p_.lower()]
+        if not ps:
+            continue
+        tainted = set(ps)
+        changed = True
+        while changed:
+            changed = False
+            for a in walk_no_nested(fn.node):
+                if isinstance(a, ast.Assign) and names_in(a.value) & tainted:
+                    for t in a.targets:
+                        for x in ast.walk(t):
+                            if isinstance(x, ast.Name) and x.id not in tainted:
+                                tainted.add(x.id)
+                                changed = True
+        for rt in [x for x in walk_no_nested(fn.node) if isinstance(x, ast.Return) and x.value is not None and not isinstance(x.value, ast.Constant)]:
+            n += 1
+            # a value, or a branch condition on the way to it, must involve the alias
+            dep = bool(names_in(rt.value) & tainted)
+            if not dep:
+                must = ctx.flow(fn).must_at(rt)
+                dep = any(not txt.startswith(("EV:", "ITER:", "MATCH:")) and any(re.search(rf"(?<![A-Za-z0-9_]){re.escape(v)}(?![A-Za-z0-9_])", txt) for v in tainted) for _p, txt in must)
+            rep.check("R-ALIAS-DECIDES", fn.qname, fn.loc(rt), dep, f"return:{unparse(rt.value)[:30]}",
+                      f"`{unparse(rt)[:70]}` does not depend on `{ps[0]}`: every name bound by the same import statement gets the same answer")
+    if n < 2:
+        raise AnalysisError("utils_mixin: no resolution helper taking an import alias found")
+
+
 def rule_no_swallow(ctx, rep):
     rep.rule(
         "R-NO-SWALLOW",
@@ -600,6 +639,7 @@ def check(ctx, rep):
     rule_lost_update(ctx, rep)
     rule_framework_dispatch_keeps_updates(ctx, rep)
     rule_no_swallow(ctx, rep)
+    rule_alias_decides(ctx, rep)
     from .c16 import rule_args_info_fresh
 
     rule_args_info_fresh(ctx, rep)
